@@ -96,6 +96,36 @@ def run(ctx, idx):
             ctx.ob("C04.c", "%s::is_fuzzy" % d.key, d.module.rel, d.cls.node.lineno, d.is_fuzzy_literal, "is_fuzzy is the literal True" if d.is_fuzzy_literal else "is_fuzzy is not a literal boolean", nontrivial=False)
     for e in sorted(extra):
         ctx.note("additional fuzzy producer %s (not in the reference table) — checked under C04.a as well" % e)
+    # the thresholds that are compared are the thresholds that are used: the InvalidThresholds test in CvtToFuzzy reads the same
+    # definitions of both names as the arithmetic after it (a test made before the data-derived defaults are filled in does not see
+    # them: a default equal to the given threshold then divides by zero, and NaN passes both clamp comparisons)
+    ctx.rule("C04.f", "CvtToFuzzy's equal-thresholds guard sees the values the ramp is built from: at the test `true == false` both names have the definitions they still have at the division by their difference (reaching definitions on the CFG).")
+    cf = idx.cls("mpilot.libraries.eems.fuzzy", "CvtToFuzzy")
+    cfe = cf.methods.get("execute") if cf is not None else None
+    if cfe is None:
+        raise AnalysisError("C04.f: CvtToFuzzy.execute vanished")
+    ccfg = K.cfg_of(idx, cfe)
+    rz_ = [n for n in ccfg.find("raise") if (n.meta.get("qual") or "").endswith("InvalidThresholds")]
+    tests_ = [t for t in ccfg.find("test") if any(ccfg.dominates(t, r_) for r_ in rz_) and isinstance(t.ast, ast.Compare) and len(t.ast.ops) == 1 and isinstance(t.ast.ops[0], (ast.Eq, ast.NotEq))
+              and isinstance(t.ast.left, ast.Name) and isinstance(t.ast.comparators[0], ast.Name)]
+    con_f = "%s::guard-sees-final-thresholds" % cfe.key
+    if not rz_ or not tests_:
+        raise AnalysisError("C04.f: no `a == b` test of two names decides InvalidThresholds in CvtToFuzzy.execute")
+    rd_ = ccfg.reaching_defs()
+    t0 = tests_[-1]
+    names_ = [t0.ast.left.id, t0.ast.comparators[0].id]
+    stale = None
+    for n in ccfg.reachable([m for m, l in t0.succ]):
+        if n.ast is None or n.kind not in ("store", "call", "aug", "test", "return"):
+            continue
+        used = {x.id for x in ast.walk(n.ast) if isinstance(x, ast.Name) and isinstance(x.ctx, ast.Load)} & set(names_)
+        for nm in used:
+            later = rd_.get(n, {}).get(nm, frozenset())
+            here = rd_.get(t0, {}).get(nm, frozenset())
+            if later and not (later <= here):
+                stale = stale or (n, nm)
+    ctx.ob("C04.f", con_f, K.rel(cfe), t0.line, stale is None, "the thresholds compared are the ones used afterwards" if stale is None else
+           "`%s` is tested before `%s` gets its final value (it is assigned again before `%s`): when the default taken from the data equals the threshold that was given, the ramp divides by zero - on a plain array the cells become NaN, which passes both clamp comparisons" % (t0.text()[:50], stale[1], stale[0].text()[:40]))
     # C04.b
     sym = Arr(kind="masked", alias=frozenset({"X"}), M=frozenset({"X"}), D=frozenset({"X"}), shape="same")
     res, out, fi = R.summarize_helper(idx, "mpilot.utils", "insure_fuzzy", [sym, Scal(sym="lo"), Scal(sym="hi")])
